@@ -145,9 +145,9 @@ def rule_bound(ctx, rep):
                     r.finding(inst, loc_str(b.f, s[3]), "femptos is neither 0 nor guarded by the 15-digit check")
 
 
-def rule_pair(ctx, rep):
+def rule_pair(ctx, rep, rid="R-C04-pair"):
     """R-C04-pair: indent()/outdent() balanced in every renderer method."""
-    r = rep.rule("R-C04-pair", "in every LibraryRenderer method indent()/outdent() are balanced on every Ok path and the "
+    r = rep.rule(rid, "in every LibraryRenderer method indent()/outdent() are balanced on every Ok path and the "
                                "running balance is never negative on any path", floor=60, floor_what="renderer methods")
     IND = "ironplc_plc2plc::renderer::LibraryRenderer::indent"
     OUT = "ironplc_plc2plc::renderer::LibraryRenderer::outdent"
@@ -205,9 +205,23 @@ def rule_pair(ctx, rep):
         else:
             r.ok(inst, "%s:%d" % (b.f["file"], b.f["line"]), "uses pair" if uses else "no indentation calls")
         users += 1 if uses else 0
+    # the counters themselves: indent() adds exactly one and outdent() takes exactly one away, unconditionally - a balance of calls says
+    # nothing if one of them is clamped, skipped or scaled (an outdent after a clamped indent underflows)
+    for nm, op in ((IND, "Add"), (OUT, "Sub")):
+        for bd in ctx.prog.get(nm):
+            branches = [i for i in bd.reachable(0) if bd.term(i)[0] == "switch"]
+            steps = [st for _, _, st in bd.all_stmts() if st[0] == "=" and st[2][0] == "bin" and st[2][1] in (op, op + "WithOverflow", op + "Unchecked")]
+            one = [st for st in steps if any(o[0] == "c" and len(o) > 3 and isinstance(o[3], dict) and o[3].get("int") == "1" for o in st[2][2:4])]
+            inst = "%s|counter" % nm.split("::")[-1]
+            where = "%s:%d" % (bd.f["file"], bd.f["line"])
+            if branches or len(steps) != 1 or len(one) != 1 or len(bd.calls()) > 0:
+                r.finding(inst + "|not-plus-minus-one", where, "%s() is not the unconditional `%s 1` the balance argument relies on (%d branches, %d arithmetic steps, %d calls): "
+                          "balanced calls no longer mean a balanced counter" % (nm.split("::")[-1], "+=" if op == "Add" else "-=", len(branches), len(steps), len(bd.calls())))
+            else:
+                r.ok(inst, where, "unconditional %s 1" % ("+=" if op == "Add" else "-="))
     r.note("%d methods call indent()/outdent()" % users)
     if users < 15:
-        rep.error("R-C04-pair", "only %d renderer methods use indent/outdent (< 15 confirmed by hand): anchor moved?" % users)
+        rep.error(rid, "only %d renderer methods use indent/outdent (< 15 confirmed by hand): anchor moved?" % users)
 
 
 def rule_assigned(ctx, rep):
